@@ -437,7 +437,17 @@ func runSchedule(sc cScenario, prefix []int, rng *rand.Rand, cb *coSched) (Case,
 		s.cb, s.start, s.preempt = true, cb.start, cb.preempt
 	}
 	midOK := true
+	var lockTrace []string
 	if sc.Kind == "mem" {
+		memory.VerifUnregisterAll()
+		memory.VerifRegister(e.stores[0])
+		memory.VerifLockEvent = func(shard int, write, acquire bool) {
+			tid := -1
+			if s.cur != nil {
+				tid = s.cur.id
+			}
+			lockTrace = append(lockTrace, fmt.Sprintf("(%d, %d, %s, %s)", tid, shard, cBool(write), cBool(acquire)))
+		}
 		memory.VerifYield = s.yield
 		s.onStep = func() {
 			if memory.VerifNoWriter(e.stores[0]) {
@@ -473,7 +483,7 @@ func runSchedule(sc cScenario, prefix []int, rng *rand.Rand, cb *coSched) (Case,
 	})
 	ok := s.run(bodies)
 	cancelW()
-	memory.VerifYield, redisstore.VerifBeforeDo = nil, nil
+	memory.VerifYield, redisstore.VerifBeforeDo, memory.VerifLockEvent = nil, nil, nil
 	// final observation
 	var entries []string
 	var ri, rs, rl, ti, ts, tl int64
@@ -559,11 +569,11 @@ func runSchedule(sc cScenario, prefix []int, rng *rand.Rand, cb *coSched) (Case,
 	if sc.Kind == "redis" {
 		kind = fmt.Sprintf("KRedisC %d", sc.Inst)
 	}
-	coq := fmt.Sprintf("{| c_kind := %s; c_setup := %s; c_clock := %s; c_threads := %s; c_final := %s; c_totals := (%s, %s, %s); c_recount := (%d, %d, %d); c_midflight_ok := %s; c_steps_only := %s; c_post := [SClock %s; SExpire %s]; c_final2 := %s |}",
+	coq := fmt.Sprintf("{| c_kind := %s; c_setup := %s; c_clock := %s; c_threads := %s; c_final := %s; c_totals := (%s, %s, %s); c_recount := (%d, %d, %d); c_midflight_ok := %s; c_steps_only := %s; c_post := [SClock %s; SExpire %s]; c_final2 := %s; c_locks := %s |}",
 		kind, cList(setup), cZ(sc.Clock), "[\n  "+strings.Join(thr, ";\n  ")+"]", cList(entries), cZ(ti), cZ(ts), cZ(tl), ri, rs, rl, cBool(midOK && ok), cBool(sc.Kind == "mem"),
-		cZ(postClock), cZ(postCut), cList(entries2))
+		cZ(postClock), cZ(postCut), cList(entries2), cList(lockTrace))
 	in := map[string]interface{}{"scenario": sc.Name, "kind": sc.Kind, "sc": sc, "schedule": append([]int{}, s.picks...)}
-	obs := map[string]interface{}{"completed": ok, "entries": len(entries), "totals": []int64{ti, ts, tl}, "recount": []int64{ri, rs, rl}, "midflight_ok": midOK, "steps": steps, "panics": panics, "entries_after_late_expiry": len(entries2)}
+	obs := map[string]interface{}{"completed": ok, "entries": len(entries), "totals": []int64{ti, ts, tl}, "recount": []int64{ri, rs, rl}, "midflight_ok": midOK, "steps": steps, "panics": panics, "entries_after_late_expiry": len(entries2), "lock_events": len(lockTrace)}
 	return Case{Coq: coq, In: in, Obs: obs, Kind: sc.Kind + ":" + sc.Name}, s.picks, s.branch, ok
 }
 
